@@ -169,7 +169,7 @@ func init() {
 			"transport modes {normal, typesHash tampered, body truncated at k, body failing at k}; oracle: common names equal the exporter's content, names unknown to the exporter get 404 and keep their sentinel entries, tampered hash gets 400 and nothing is imported, " +
 			"truncated/failing bodies import a subset without panic; types hash: child processes register seeded permutations/multisets of a pool of 12 types (equal sets => equal hash in every process, set plus one type => different hash); " +
 			"a genuinely separate exporter process with a different type set serves over stdin/stdout and nothing may be imported; distinct_nontrivial = distinct (names on both sides, mode, backend pairing) transfer cells + distinct type sets hashed",
-		Required:    []string{"transfers.normal", "transfers.tampered", "transfers.truncated", "transfers.failbody", "status.404", "status.400", "status.200", "hash.processes", "hash.sets_compared", "hash.added_type_differs", "hash.variadic_groupings", "twoprocess.transfers", "entries.imported"},
+		Required:    []string{"transfers.normal", "transfers.tampered", "transfers.truncated", "transfers.failbody", "status.404", "status.400", "status.200", "hash.processes", "hash.sets_compared", "hash.added_type_differs", "hash.variadic_groupings", "twoprocess.transfers", "entries.imported", "transfers.hostile_names"},
 		Assumptions: []string{"GobTypesHashReset is a test helper and is never called; the registered set is what a fresh process registered"},
 		Timeout:     func(string) time.Duration { return 20 * time.Minute },
 	})
@@ -216,6 +216,11 @@ func c14Family(rng *rand.Rand) (string, string) {
 func c14Transfer(b *Batch, idx int) {
 	rng := rand.New(rand.NewSource(b.CaseSeed(idx)))
 	names := []string{"a", "b", "c", "d", "e"}
+	if rng.Intn(2) == 0 {
+		// names that need query escaping; some decode to another registered name when escaped wrongly
+		names = []string{"orders+returns", "orders returns", "stats&legacy", "stats", "x/y?z=1", "ü%41"}
+		b.R.Count("transfers.hostile_names", 1)
+	}
 	exp := &cache.HTTPTransfer{}
 	imp := &cache.HTTPTransfer{}
 	type side struct {
@@ -240,6 +245,9 @@ func c14Transfer(b *Batch, idx int) {
 					ctx = cache.WithTTL(bg, time.Duration(rng.Intn(3)-1)*time.Hour, false)
 				}
 				s.src.Write(ctx, []byte(fmt.Sprintf("%s/key-%d", nm, i)), v)
+				if sk == "ShardedMapOf" || true {
+					_ = v
+				}
 			}
 			exp.AddCache(nm, s.src.WDR())
 		}
